@@ -5,11 +5,11 @@
   `apply_pagination`, handler.rs:3818-3823 and :4140-4145).
 
   `slice::sort_by` (std, stable): for `len ≤ 20` std runs `insertion_sort_shift_left` — modelled exactly
-  (`stdInsertionSort`), whatever the comparator does.  For longer inputs std runs driftsort, whose result
-  is only specified when the comparator is a total order on the slice; there it is *the* stable sorted
-  permutation, which is also what `stdInsertionSort` returns (Lemmas.WireSort), so the same function is
-  the model.  For `len > 20` with an inconsistent comparator std's result is unspecified (any permutation,
-  or a panic); the driver then only checks that the code returned a permutation.
+  (`stdInsertionSort`).  For longer inputs std runs driftsort, whose result is specified when the
+  comparator is a total order on the slice: it is *the* stable sorted permutation, which is also what
+  `stdInsertionSort` returns (Lemmas.WireSort).  After the repair of `compare_wire_values` the closure
+  is a total preorder on all rows (Lemmas.WireOrder.rowCmp_tp), so the same function is the model for
+  every length and `sort_by` never panics.
 -/
 import ILV.Model.Value
 namespace ILV
@@ -32,6 +32,9 @@ def WVal.rank : WVal → Nat
   | .null => 0 | .bool _ => 1 | .i32 _ => 2 | .i64 _ => 3 | .f64 _ => 4 | .str _ => 5 | .ts _ => 6
   | .vec _ => 7 | .vec8 _ => 7 | .bytes _ => 8
 
+def revOrd : Ordering → Ordering
+  | .lt => .gt | .eq => .eq | .gt => .lt
+
 /-! ### `i64 as f64` (round to nearest, ties to even) on bit patterns -/
 
 def bitLenAux : Nat → Nat → Nat
@@ -41,39 +44,68 @@ def bitLenAux : Nat → Nat → Nat
 /-- number of significant bits of `m` (`m < 2^64`). -/
 def bitLen (m : Nat) : Nat := bitLenAux 64 m
 
-/-- bit pattern of the double nearest to the natural number `m ≤ 2^64` (ties to even). -/
+/-- `m / 2^sh` rounded to nearest, ties to even. -/
+def rhe (m sh : Nat) : Nat :=
+  let q := m / 2^sh
+  let r := m % 2^sh
+  if r > 2^(sh - 1) || (r == 2^(sh - 1) && q % 2 == 1) then q + 1 else q
+
+/-- the 53-bit significand (2^52 ≤ · ≤ 2^53) of the double nearest to `m`, where 2^e ≤ m < 2^(e+1). -/
+def sigOf (m e : Nat) : Nat := if e ≤ 52 then m * 2^(52 - e) else rhe m (e - 52)
+
+/-- bit pattern of the double nearest to the natural number `m ≤ 2^64` (ties to even):
+    exponent field `e + 1023`, fraction `sig - 2^52` (a carry to `sig = 2^53` bumps the exponent field). -/
 def natToF64Bits (m : Nat) : Nat :=
   if m = 0 then 0 else
   let e := bitLen m - 1                       -- 2^e ≤ m < 2^(e+1)
-  if e ≤ 52 then (e + 1023) * 2^52 + (m * 2^(52 - e) - 2^52)
-  else
-    let sh := e - 52
-    let q := m / 2^sh
-    let r := m % 2^sh
-    let half := 2^(sh - 1)
-    let q' := if r > half || (r == half && q % 2 == 1) then q + 1 else q
-    (e + 1023) * 2^52 + (q' - 2^52)           -- a carry into 2^53 bumps the exponent field
+  (e + 1022) * 2^52 + sigOf m e
 
 /-- `(n as f64).to_bits()` for an `i64`. -/
 def i64AsF64 (n : Int) : Nat :=
   if n < 0 then 2^63 + natToF64Bits n.natAbs else natToF64Bits n.natAbs
 
-/-- `a.partial_cmp(b).unwrap_or(Equal)` on doubles. -/
+/-- `a.partial_cmp(b).unwrap_or(Equal)` on doubles (the comparison before the repair; still the Spec's
+    comparison of two non-NaN doubles). -/
 def cmpF (a b : Nat) : Ordering := (f64PartialCmp a b).getD .eq
 
-/-- `compare_wire_values` on two present values (handler.rs:8002-8023). -/
+/-- `compare_f64`: numeric order, NaN after every number, all NaNs tie, -0.0 ties with 0.0. -/
+def cmpF64 (a b : Nat) : Ordering :=
+  match f64IsNaN a, f64IsNaN b with
+  | true, true => .eq
+  | true, false => .gt
+  | false, true => .lt
+  | false, false => compare (f64Key a) (f64Key b)
+
+/-- `b as i128` for a double that equals the rounding of an `i64` (integer-valued, |b| ≤ 2^63). -/
+def f64ToInt (b : Nat) : Int :=
+  let mag := b % 2^63
+  let e := mag / 2^52
+  let frac := mag % 2^52
+  let v : Nat := if e = 0 then 0
+    else if e ≥ 1075 then (2^52 + frac) * 2^(e - 1075) else (2^52 + frac) / 2^(1075 - e)
+  if (b / 2^63) % 2 == 1 then - (v : Int) else (v : Int)
+
+/-- `compare_i64_f64`: NaN after every number; otherwise compare `a as f64` with `b`, a tie being
+    broken on the integers (`i128::from(a).cmp(&(b as i128))`). -/
+def cmpI64F64 (a : Int) (b : Nat) : Ordering :=
+  if f64IsNaN b then .lt else
+  match compare (f64Key (i64AsF64 a)) (f64Key b) with
+  | .eq => compare a (f64ToInt b)
+  | o => o
+
+/-- `compare_wire_values` on two present values. -/
 def compareWV : WVal → WVal → Ordering
   | .i64 a, .i64 b => compare a b
   | .i32 a, .i32 b => compare a b
-  | .f64 a, .f64 b => cmpF a b
+  | .f64 a, .f64 b => cmpF64 a b
   | .str a, .str b => lexCmp (fun (x y : Nat) => compare x y) a b
   | .bool a, .bool b => compare a b
   | .ts a, .ts b => compare a b
   | .null, .null => .eq
   | .null, _ => .lt
   | _, .null => .gt
-  | .i64 a, .f64 b => cmpF (i64AsF64 a) b
-  | .f64 a, .i64 b => cmpF a (i64AsF64 b)
+  | .i64 a, .f64 b => cmpI64F64 a b
+  | .f64 a, .i64 b => revOrd (cmpI64F64 b a)
   | a, b => compare a.rank b.rank
 
 /-- `compare_wire_values` (handler.rs:7997). -/
@@ -87,9 +119,6 @@ abbrev WRow := List WVal
 
 /-- a sort key: column index and direction (`true` = descending). -/
 abbrev SortKey := Nat × Bool
-
-def revOrd : Ordering → Ordering
-  | .lt => .gt | .eq => .eq | .gt => .lt
 
 /-- the closure passed to `sort_by` (handler.rs:7978-7992). -/
 def rowCmp : List SortKey → WRow → WRow → Ordering
@@ -141,20 +170,10 @@ def WVal.isNaN : WVal → Bool
   | .f64 b => f64IsNaN b
   | _ => false
 
-/-- integer value of an integer-valued finite double given by its bit pattern (used only when the
-    double equals the rounding of an `i64`, so it is integer-valued with exponent ≥ 0, or zero). -/
-def f64ToInt (b : Nat) : Int :=
-  let mag := b % 2^63
-  let e := mag / 2^52
-  let frac := mag % 2^52
-  let v : Nat := if e = 0 then 0                                  -- (sub)normal below 1: only 0 is integral
-    else if e ≥ 1075 then (2^52 + frac) * 2^(e - 1075) else (2^52 + frac) / 2^(1075 - e)
-  if (b / 2^63) % 2 == 1 then - (v : Int) else (v : Int)
-
 /-- exact comparison of an `i64` with a non-NaN double: rounding is monotone and the double is a fixed
     point of it, so a strict answer after rounding is the exact answer; on a tie compare exactly. -/
 def cmpIntF (a : Int) (b : Nat) : Ordering :=
-  match cmpF (i64AsF64 a) b with
+  match compare (f64Key (i64AsF64 a)) (f64Key b) with
   | .eq => compare a (f64ToInt b)
   | o => o
 
